@@ -1,4 +1,6 @@
 import TwistedProps.C32.Message
+import TwistedProps.C32.TruncMessage
+import TwistedProps.C32.Total
 /-!
 C32 — DNS messages round-trip through the wire format.
 
@@ -6,7 +8,8 @@ Model: `TwistedModel/Dns/Wire.lean` (transcription of `Name`, `Query`, `RRHeader
 `Record_*`, `Message`, `_OPTHeader`, `_EDNSMessage` of `twisted/names/dns.py`, after the two
 repairs recorded in `known-findings.txt`).  Lemmas: `TwistedProps/C32/*.lean`.
 
-Statement, clause by clause:
+`message_round_trip` puts clauses 1 and 3 together for `Message` with no hypothesis about what the
+encoder returns.  Clause by clause:
 
 1. *encoding then decoding yields an equal message* — `decode_encode_message`: for every message
    whose queries and records are well-formed (`wfMsg`: supported record shapes, in-range fields,
@@ -18,16 +21,33 @@ Statement, clause by clause:
    targets an offset before the start of the label run it is written in, so pointer chains
    strictly descend and the `visited` check of `Name.decode` never fires.
    (`name_roundtrip`, `field_rt`, `fields_good`, `rr_rt`, `rrs_rt`, `queries_rt` in `C32/*.lean` are the layers.)
+   *`toStr` does return something* — `encode_succeeds`: for every `wfMsg` none of whose RDATA can
+   reach 64 KiB (`rdataMax`, the RDATA's size with names written in full); nothing is needed about
+   compression offsets (`Name.encode` records an offset only when it is below 2^14).
+   `encode_fails_only_on_oversize_rdata`: the only failure of `toStr` on a `wfMsg` is
+   `struct.error` from packing the RDLENGTH of such a record; `encode_fails_on_oversize_rdata`: it does
+   fail when an RDATA certainly has 64 KiB (`rdataMin`, names counted as one byte); `encode_succeeds_iff`:
+   for messages whose RDATA hold no names the condition is exact.
+   (`C32/Total.lean`: `name_total`, `field_total`, `fields_total`, `rr_total`, `rrs_total` give the
+   encoder's outcome exactly, item by item.)
    *an independent decoder reads the same content*: not a theorem — checked by the oracle of
    `harness/corr/C32.py` with the RFC 1035 reader of `TwistedModel/Dns/Rfc1035.lean` (partial).
-2. *a name that cannot be represented is refused when encoding* — `unrepresentable_name_refused`.
+2. *a name that cannot be represented is refused when encoding* — `unrepresentable_name_refused`
+   (`Name.encode`) and, at the message level, `unrepresentable_name_refused_message` /
+   `unrepresentable_name_refused_valueError`: a message in range except that some label — of a question
+   name, an owner name or a name inside an RDATA — has more than 63 bytes is never encoded;
+   `Message.toStr` raises `ValueError` (unless a record with an RDATA of 64 KiB or more comes
+   first and raises `struct.error`).
 3. *a message larger than its size limit is encoded within the limit with the truncation flag set
-   and decodes to a prefix of the original records* — `truncated_encoding_within_limit_partial`
-   proves: exactly `maxSize` bytes, TC set, the same header otherwise, and the bytes are the
-   header followed by a prefix of the untruncated body.  NOT proved in Lean: that
-   `Message.decode` of those bytes yields a prefix of the records (needs a second pass over every
-   decoder showing "cut inside an item ⇒ EOFError"); that half is checked on the real code by
-   the oracle (`truncation-prefix`) and on the model by the tie on every run.
+   and decodes to a prefix of the original records* — `truncated_encoding_within_limit`: exactly
+   `maxSize` bytes (`maxSize ≥ 12`), TC set, the bytes are the header followed by a prefix of the
+   untruncated body, and `Message.fromStr` decodes them — without raising — to the message's
+   header with TC set and a flat proper prefix of its questions and records (`decode_truncated`,
+   for a cut at *any* byte of the body).  Layers (`C32/Trunc*.lean`): a name / field / RDATA /
+   record / question cut by the end of the message raises `EOFError` and nothing else
+   (`name_cut`, `field_cut`, `fields_cut`, `rr_cut`, `query_cut`); items wholly before the cut
+   decode as in the full message (the round-trip lemmas applied to the truncated message);
+   `parseRecords` / `Message.decode` catch the `EOFError` (`rrs_trunc`, `queries_trunc`).
 4. `_EDNSMessage`: the size limit of an EDNS message is ignored by the code
    (`edns_maxsize_ignored_counterexample`; known finding `edns-maxsize-ignored`).
 -/
@@ -164,22 +184,127 @@ theorem decode_encode_message (m : Msg) (hwf : wfMsg m = true) (body bs : Bytes)
           simp only [hrd0, hlen, ne_eq, not_true_eq_false, if_false, f1, f2, f3, f4, f5, f6, f7, q1, q2, q3, q4,
             Bool.false_eq_true, g1, g2, g3, g4, g5, g6, g7, g8, g9]
 
-/-- **C32, clause 3 (the part proved).**  A message over its size limit (`maxSize ≥ 12`) is encoded
-    in exactly `maxSize` bytes, the TC bit is set, and the bytes are the 12-byte header (TC = 1,
-    otherwise that of the message) followed by a prefix of the untruncated body.
-    Not proved here: `Message.decode` of these bytes returns a prefix of the records (see the
-    header comment — checked on the real code by the oracle on every run). -/
-theorem truncated_encoding_within_limit_partial (m : Msg) (hwf : wfMsg m = true) (body bs : Bytes)
+/-- what `Message.decode` makes of a truncated message: the header of `m` with TC set, the first
+    `kq` questions and the first `ka` / `kn` / `kd` records of the three record sections -/
+def truncatedTo (m : Msg) (kq ka kn kd : Nat) : Msg :=
+  { m with maxSize := 0, trunc := 1, queries := m.queries.take kq, answers := m.answers.take ka,
+           authority := m.authority.take kn, additional := m.additional.take kd }
+
+/-- the four counts describe a *flat* proper prefix of the message's items: a section is cut only if
+    every later section is empty, and at least one item is missing -/
+def FlatCut (m : Msg) (kq ka kn kd : Nat) : Prop :=
+  kq ≤ m.queries.length ∧ ka ≤ m.answers.length ∧ kn ≤ m.authority.length ∧ kd ≤ m.additional.length ∧
+  (kq < m.queries.length → ka = 0 ∧ kn = 0 ∧ kd = 0) ∧ (ka < m.answers.length → kn = 0 ∧ kd = 0) ∧
+  (kn < m.authority.length → kd = 0) ∧
+  (kq < m.queries.length ∨ ka < m.answers.length ∨ kn < m.authority.length ∨ kd < m.additional.length)
+
+/-- **Decoding a truncated body**: the 12-byte header (TC set) followed by a proper prefix of the
+    encoded body — cut at *any* byte — is decoded by `Message.fromStr` without an exception to the
+    message's header with TC set and a flat proper prefix of its questions and records: the item
+    the cut falls in raises `EOFError` inside `Query.decode` / `RRHeader.decode` / the payload's
+    `decode`, which `Message.decode` / `parseRecords` catch; at the end of the stream every later
+    `RRHeader.decode` raises at once, so the later sections are empty. -/
+theorem decode_truncated (m : Msg) (hwf : wfMsg m = true) (body : Bytes) (hbody : encodeBody m = .ok body)
+    (c : Nat) (hc : c < body.length) :
+    ∃ kq ka kn kd, FlatCut m kq ka kn kd ∧
+      decodeMsg (headerBytes m 1 ++ body.take c) = .ok (truncatedTo m kq ka kn kd) := by
+  have hwf' := hwf
+  simp only [wfMsg, Bool.and_eq_true, decide_eq_true_eq, List.all_eq_true] at hwf'
+  obtain ⟨⟨⟨⟨⟨⟨⟨⟨⟨⟨⟨⟨⟨⟨⟨⟨⟨hid, ha⟩, ho⟩, hrd⟩, hra⟩, hau⟩, hrc⟩, htr⟩, had⟩, hcd⟩, wq⟩, wan⟩, wns⟩, wad⟩, _⟩, _⟩, _⟩, _⟩ := hwf'
+  obtain ⟨f1, f2, f3, f4, f5, f6, f7⟩ := header_fields m hwf 1 (by decide)
+  simp only [encodeBody] at hbody
+  cases e1 : encodeQueries m.queries headerSize [] with
+  | error e => simp [e1] at hbody
+  | ok r1 =>
+    obtain ⟨b1, d1⟩ := r1
+    simp only [e1] at hbody
+    cases e2 : encodeRRs m.answers (headerSize + b1.length) d1 with
+    | error e => simp [e2] at hbody
+    | ok r2 =>
+      obtain ⟨b2, d2⟩ := r2
+      simp only [e2] at hbody
+      cases e3 : encodeRRs m.authority (headerSize + b1.length + b2.length) d2 with
+      | error e => simp [e3] at hbody
+      | ok r3 =>
+        obtain ⟨b3, d3⟩ := r3
+        simp only [e3] at hbody
+        cases e4 : encodeRRs m.additional (headerSize + b1.length + b2.length + b3.length) d3 with
+        | error e => simp [e4] at hbody
+        | ok r4 =>
+          obtain ⟨b4, d4⟩ := r4
+          simp only [e4] at hbody
+          cases hbody
+          generalize hM : headerBytes m 1 ++ (b1 ++ b2 ++ b3 ++ b4).take c = M
+          have hlen := headerBytes_length m 1
+          have hcut : CutAt M headerSize (b1 ++ (b2 ++ (b3 ++ b4))) c :=
+            ⟨headerBytes m 1, by simp [← hM], hlen⟩
+          have hhdr : Placed M 0 (headerBytes m 1) := ⟨[], (b1 ++ b2 ++ b3 ++ b4).take c, by simp [← hM], rfl⟩
+          have hrd0 := readPrecisely_placed hhdr
+          rw [hlen, Nat.zero_add] at hrd0
+          simp only [List.length_append] at hc
+          have g1 : byte3 m 1 / 128 % 2 = m.answer := by unfold byte3; omega
+          have g2 : byte3 m 1 / 8 % 16 = m.opCode := by unfold byte3; omega
+          have g3 : byte3 m 1 % 2 = m.recDes := by unfold byte3; omega
+          have g4 : byte4 m / 128 % 2 = m.recAv := by unfold byte4; omega
+          have g5 : byte3 m 1 / 4 % 2 = m.auth := by unfold byte3; omega
+          have g6 : byte4 m % 16 = m.rCode := by unfold byte4; omega
+          have g7 : byte3 m 1 / 2 % 2 = 1 := by unfold byte3; omega
+          have g8 : byte4 m / 32 % 2 = m.authenticData := by unfold byte4; omega
+          have g9 : byte4 m / 16 % 2 = m.checkingDisabled := by unfold byte4; omega
+          by_cases h1 : c < b1.length
+          · obtain ⟨k, p, hk, hdec⟩ := queries_trunc m.queries headerSize [] d1 b1 M c wq e1 h1
+              (hcut.left (by omega)) (DictOK.nil _ _)
+            refine ⟨k, 0, 0, 0, ⟨by omega, by omega, by omega, by omega, fun _ => ⟨rfl, rfl, rfl⟩,
+              fun _ => ⟨rfl, rfl⟩, fun _ => rfl, Or.inl hk⟩, ?_⟩
+            simp only [decodeMsg, show headerSize = 12 from rfl] at hrd0 hdec ⊢
+            simp only [hrd0, hlen, ne_eq, not_true_eq_false, if_false, f1, f2, f3, f4, f5, f6, f7, hdec,
+              if_true, g1, g2, g3, g4, g5, g6, g7, g8, g9, truncatedTo, List.take_zero]
+          · obtain ⟨hp1, hc1⟩ := hcut.right (by omega)
+            obtain ⟨q1, dk1⟩ := queries_rt m.queries headerSize [] d1 b1 M wq e1 hp1 (DictOK.nil _ _)
+            by_cases h2 : c - b1.length < b2.length
+            · obtain ⟨k, p, hk, hdec⟩ := rrs_trunc m.answers _ d1 d2 b2 M _ wan e2 h2 (hc1.left (by omega)) dk1
+              refine ⟨m.queries.length, k, 0, 0, ⟨by omega, by omega, by omega, by omega, fun h => by omega,
+                fun _ => ⟨rfl, rfl⟩, fun _ => rfl, Or.inr (Or.inl hk)⟩, ?_⟩
+              simp only [decodeMsg, show headerSize = 12 from rfl] at hrd0 q1 hdec ⊢
+              simp only [hrd0, hlen, ne_eq, not_true_eq_false, if_false, f1, f2, f3, f4, f5, f6, f7, q1, hdec,
+                if_true, Bool.false_eq_true, g1, g2, g3, g4, g5, g6, g7, g8, g9, truncatedTo, List.take_zero,
+                List.take_length]
+            · obtain ⟨hp2, hc2⟩ := hc1.right (by omega)
+              obtain ⟨q2, dk2⟩ := rrs_rt m.answers _ d1 d2 b2 M wan e2 hp2 dk1
+              by_cases h3 : c - b1.length - b2.length < b3.length
+              · obtain ⟨k, p, hk, hdec⟩ := rrs_trunc m.authority _ d2 d3 b3 M _ wns e3 h3 (hc2.left (by omega)) dk2
+                refine ⟨m.queries.length, m.answers.length, k, 0, ⟨by omega, by omega, by omega, by omega,
+                  fun h => by omega, fun h => by omega, fun _ => rfl, Or.inr (Or.inr (Or.inl hk))⟩, ?_⟩
+                simp only [decodeMsg, show headerSize = 12 from rfl] at hrd0 q1 q2 hdec ⊢
+                simp only [hrd0, hlen, ne_eq, not_true_eq_false, if_false, f1, f2, f3, f4, f5, f6, f7, q1, q2, hdec,
+                  if_true, Bool.false_eq_true, g1, g2, g3, g4, g5, g6, g7, g8, g9, truncatedTo, List.take_zero,
+                  List.take_length]
+              · obtain ⟨hp3, hc3⟩ := hc2.right (by omega)
+                obtain ⟨q3, dk3⟩ := rrs_rt m.authority _ d2 d3 b3 M wns e3 hp3 dk2
+                obtain ⟨k, p, hk, hdec⟩ := rrs_trunc m.additional _ d3 d4 b4 M _ wad e4 (by omega) hc3 dk3
+                refine ⟨m.queries.length, m.answers.length, m.authority.length, k, ⟨by omega, by omega, by omega,
+                  by omega, fun h => by omega, fun h => by omega, fun h => by omega, Or.inr (Or.inr (Or.inr hk))⟩, ?_⟩
+                simp only [decodeMsg, show headerSize = 12 from rfl] at hrd0 q1 q2 q3 hdec ⊢
+                simp only [hrd0, hlen, ne_eq, not_true_eq_false, if_false, f1, f2, f3, f4, f5, f6, f7, q1, q2, q3, hdec,
+                  Bool.false_eq_true, g1, g2, g3, g4, g5, g6, g7, g8, g9, truncatedTo, List.take_length]
+
+/-- **C32, clause 3.**  A message over its size limit (`maxSize ≥ 12`) is encoded in exactly
+    `maxSize` bytes, the TC bit is set, the bytes are the 12-byte header (TC = 1, otherwise that of
+    the message) followed by a prefix of the untruncated body, and `Message.fromStr` decodes them
+    — without raising — to the message's header with TC set and a flat proper prefix of its
+    questions and records (`truncatedTo`, `FlatCut`). -/
+theorem truncated_encoding_within_limit (m : Msg) (hwf : wfMsg m = true) (body bs : Bytes)
     (hbody : encodeBody m = .ok body) (h12 : headerSize ≤ m.maxSize)
     (hover : body.length + headerSize > m.maxSize) (henc : encodeMsg m = .ok bs) :
     bs.length = m.maxSize ∧ (bs.getD 2 0).toNat / 2 % 2 = 1 ∧
-      bs = headerBytes m 1 ++ body.take (m.maxSize - headerSize) := by
+      bs = headerBytes m 1 ++ body.take (m.maxSize - headerSize) ∧
+      ∃ kq ka kn kd, FlatCut m kq ka kn kd ∧ decodeMsg bs = .ok (truncatedTo m kq ka kn kd) := by
   have h0 : m.maxSize ≠ 0 := by simp only [headerSize] at h12; omega
   rw [encodeMsg_eq m hwf body hbody, if_pos ⟨h0, hover⟩] at henc
   cases henc
   have hs : pySliceTo body m.maxSize = body.take (m.maxSize - headerSize) := by simp [pySliceTo, h12]
   obtain ⟨_, _, _, _, _, f6, _⟩ := header_fields m hwf 1 (by decide)
-  refine ⟨?_, ?_, by rw [hs]⟩
+  refine ⟨?_, ?_, by rw [hs], ?_⟩
   · rw [hs, List.length_append, headerBytes_length, List.length_take]
     simp only [headerSize] at h12 hover ⊢
     omega
@@ -189,6 +314,159 @@ theorem truncated_encoding_within_limit_partial (m : Msg) (hwf : wfMsg m = true)
     rw [this, f6]
     unfold byte3
     omega
+  · rw [hs]
+    exact decode_truncated m hwf body hbody _ (by simp only [headerSize] at h12 hover ⊢; omega)
+
+/-- queries and records of supported shapes with in-range values and names of non-empty labels —
+    `wfMsg`'s conditions on the sections with the 63-byte bound on labels left out -/
+def looseMsg (m : Msg) : Bool :=
+  m.queries.all looseQuery && m.answers.all looseRR && m.authority.all looseRR && m.additional.all looseRR
+
+/-- some name of the message (question name, owner name, name inside an RDATA) has a label over 63 bytes -/
+def msgLong (m : Msg) : Bool :=
+  (m.queries.any fun q => hasLong q.name) || m.answers.any rrLong || m.authority.any rrLong || m.additional.any rrLong
+
+/-- some record's RDATA may reach 64 KiB (`rdataMax`: its size with every name written in full) -/
+def msgBig (m : Msg) : Prop := ∃ r ∈ m.answers ++ m.authority ++ m.additional, 65536 ≤ rdataMax r
+
+/-- some record's RDATA certainly reaches 64 KiB (`rdataMin`: its size with every name counted as one
+    byte — the exact size when the RDATA holds no name) -/
+def msgSurelyBig (m : Msg) : Prop := ∃ r ∈ m.answers ++ m.authority ++ m.additional, 65536 ≤ rdataMin r
+
+theorem wfMsg_loose {m : Msg} (h : wfMsg m = true) : looseMsg m = true ∧ msgLong m = false := by
+  simp only [wfMsg, Bool.and_eq_true, decide_eq_true_eq, List.all_eq_true] at h
+  obtain ⟨⟨⟨⟨⟨⟨⟨⟨_, wq⟩, wan⟩, wns⟩, wad⟩, _⟩, _⟩, _⟩, _⟩ := h
+  simp only [looseMsg, msgLong, Bool.and_eq_true, List.all_eq_true, Bool.or_eq_false_iff, List.any_eq_false]
+  exact ⟨⟨⟨⟨fun q hq => (wfQuery_loose (wq q hq)).1, fun r hr => (wfRR_loose (wan r hr)).1⟩,
+    fun r hr => (wfRR_loose (wns r hr)).1⟩, fun r hr => (wfRR_loose (wad r hr)).1⟩,
+    ⟨⟨⟨fun q hq => by simp [(wfQuery_loose (wq q hq)).2], fun r hr => by simp [(wfRR_loose (wan r hr)).2]⟩,
+    fun r hr => by simp [(wfRR_loose (wns r hr)).2]⟩, fun r hr => by simp [(wfRR_loose (wad r hr)).2]⟩⟩
+
+/-- **The body, exactly**: the four sections are written iff no name has a label over 63 bytes and
+    no RDATA reaches 64 KiB; the first offending item decides between `ValueError` and `struct.error`. -/
+theorem body_total (m : Msg) (hl : looseMsg m = true) :
+    (msgLong m = false ∧ ¬ msgSurelyBig m ∧ ∃ body, encodeBody m = .ok body) ∨
+    (msgLong m = true ∧ encodeBody m = .error .value) ∨ (encodeBody m = .error .struct ∧ msgBig m) := by
+  simp only [looseMsg, Bool.and_eq_true, List.all_eq_true] at hl
+  obtain ⟨⟨⟨lq, lan⟩, lns⟩, lad⟩ := hl
+  have hk0 : KeysWf [] := fun _ _ h => by cases h
+  simp only [encodeBody, msgLong, msgBig, msgSurelyBig]
+  rcases queries_total m.queries lq headerSize [] hk0 with ⟨h1, _, b1, d1, e1, k1⟩ | ⟨h1, e1⟩ | ⟨_, hf⟩
+  · rcases rrs_total m.answers lan (headerSize + b1.length) d1 k1 with
+      ⟨h2, s2, b2, d2, e2, k2⟩ | ⟨h2, e2⟩ | ⟨e2, r, hr, hb⟩
+    · rcases rrs_total m.authority lns (headerSize + b1.length + b2.length) d2 k2 with
+        ⟨h3, s3, b3, d3, e3, k3⟩ | ⟨h3, e3⟩ | ⟨e3, r, hr, hb⟩
+      · rcases rrs_total m.additional lad (headerSize + b1.length + b2.length + b3.length) d3 k3 with
+          ⟨h4, s4, b4, d4, e4, k4⟩ | ⟨h4, e4⟩ | ⟨e4, r, hr, hb⟩
+        · refine Or.inl ⟨by simp [h1, h2, h3, h4], ?_, b1 ++ b2 ++ b3 ++ b4, by simp [e1, e2, e3, e4]⟩
+          rintro ⟨x, hx, hbx⟩
+          simp only [List.mem_append] at hx
+          rcases hx with (hx | hx) | hx
+          · exact s2 ⟨x, hx, hbx⟩
+          · exact s3 ⟨x, hx, hbx⟩
+          · exact s4 ⟨x, hx, hbx⟩
+        · exact Or.inr (Or.inl ⟨by simp [h4], by simp [e1, e2, e3, e4]⟩)
+        · exact Or.inr (Or.inr ⟨by simp [e1, e2, e3, e4], r, by simp [hr], hb⟩)
+      · exact Or.inr (Or.inl ⟨by simp [h3], by simp [e1, e2, e3]⟩)
+      · exact Or.inr (Or.inr ⟨by simp [e1, e2, e3], r, by simp [hr], hb⟩)
+    · exact Or.inr (Or.inl ⟨by simp [h2], by simp [e1, e2]⟩)
+    · exact Or.inr (Or.inr ⟨by simp [e1, e2], r, by simp [hr], hb⟩)
+  · exact Or.inr (Or.inl ⟨by simp [h1], by simp [e1]⟩)
+  · exact hf.elim
+
+theorem encodeMsg_body_error {m : Msg} {e : Err} (h : encodeBody m = .error e) : encodeMsg m = .error e := by
+  simp [encodeMsg, h]
+
+/-- **`Message.toStr` succeeds** for every well-formed message none of whose RDATA can reach 64 KiB
+    (`rdataMax`: the RDATA's size with every name written in full).  Nothing about compression
+    offsets is needed: `Name.encode` records an offset only when it is below 2^14. -/
+theorem encode_succeeds (m : Msg) (hwf : wfMsg m = true)
+    (hsz : ∀ r ∈ m.answers ++ m.authority ++ m.additional, rdataMax r < 65536) :
+    ∃ body bs, encodeBody m = .ok body ∧ encodeMsg m = .ok bs := by
+  obtain ⟨hl, hlong⟩ := wfMsg_loose hwf
+  rcases body_total m hl with ⟨_, _, body, hb⟩ | ⟨h, _⟩ | ⟨_, r, hr, hbig⟩
+  · exact ⟨body, _, hb, encodeMsg_eq m hwf body hb⟩
+  · rw [hlong] at h; cases h
+  · have := hsz r hr; omega
+
+/-- … and the only way `Message.toStr` can fail on a well-formed message is `struct.error` from
+    packing the RDLENGTH of a record whose RDATA has 64 KiB or more. -/
+theorem encode_fails_only_on_oversize_rdata (m : Msg) (hwf : wfMsg m = true) (e : Err)
+    (h : encodeMsg m = .error e) : e = .struct ∧ msgBig m := by
+  obtain ⟨hl, hlong⟩ := wfMsg_loose hwf
+  rcases body_total m hl with ⟨_, _, body, hb⟩ | ⟨h', _⟩ | ⟨hb, hbig⟩
+  · rw [encodeMsg_eq m hwf body hb] at h; cases h
+  · rw [hlong] at h'; cases h'
+  · rw [encodeMsg_body_error hb] at h; cases h; exact ⟨rfl, hbig⟩
+
+/-- … and it does fail when some RDATA certainly has 64 KiB or more (`rdataMin`; for an RDATA without
+    names `rdataMin = rdataMax` is its exact size, so for such messages
+    `toStr` succeeds ⇔ every RDATA is shorter than 65536 bytes). -/
+theorem encode_fails_on_oversize_rdata (m : Msg) (hwf : wfMsg m = true) (hbig : msgSurelyBig m) :
+    encodeMsg m = .error .struct := by
+  obtain ⟨hl, hlong⟩ := wfMsg_loose hwf
+  rcases body_total m hl with ⟨_, hs, _⟩ | ⟨h', _⟩ | ⟨hb, _⟩
+  · exact absurd hbig hs
+  · rw [hlong] at h'; cases h'
+  · exact encodeMsg_body_error hb
+
+/-- the exact condition when no RDATA holds a (compressible) name: `rdataMin = rdataMax` -/
+theorem encode_succeeds_iff (m : Msg) (hwf : wfMsg m = true)
+    (hexact : ∀ r ∈ m.answers ++ m.authority ++ m.additional, rdataMin r = rdataMax r) :
+    (∃ bs, encodeMsg m = .ok bs) ↔ ∀ r ∈ m.answers ++ m.authority ++ m.additional, rdataMax r < 65536 := by
+  constructor
+  · rintro ⟨bs, hbs⟩ r hr
+    rcases Nat.lt_or_ge (rdataMax r) 65536 with h | h
+    · exact h
+    · have := encode_fails_on_oversize_rdata m hwf ⟨r, hr, by rw [hexact r hr]; exact h⟩
+      rw [this] at hbs; cases hbs
+  · intro h
+    obtain ⟨_, bs, _, he⟩ := encode_succeeds m hwf h
+    exact ⟨bs, he⟩
+
+/-- **C32, clause 2 at the message level.**  A message whose questions and records are in range and
+    whose names are made of non-empty labels, one of which — in a question, an owner name or
+    inside an RDATA — has more than 63 bytes, is never encoded: `Message.toStr` raises
+    `ValueError`, unless an earlier record with an RDATA of 64 KiB or more raises `struct.error` first. -/
+theorem unrepresentable_name_refused_message (m : Msg) (hl : looseMsg m = true) (hlong : msgLong m = true) :
+    encodeMsg m = .error .value ∨ (encodeMsg m = .error .struct ∧ msgBig m) := by
+  rcases body_total m hl with ⟨h, _⟩ | ⟨_, hb⟩ | ⟨hb, hbig⟩
+  · rw [hlong] at h; cases h
+  · exact Or.inl (encodeMsg_body_error hb)
+  · exact Or.inr ⟨encodeMsg_body_error hb, hbig⟩
+
+theorem unrepresentable_name_refused_valueError (m : Msg) (hl : looseMsg m = true) (hlong : msgLong m = true)
+    (hsz : ∀ r ∈ m.answers ++ m.authority ++ m.additional, rdataMax r < 65536) :
+    encodeMsg m = .error .value := by
+  rcases unrepresentable_name_refused_message m hl hlong with h | ⟨_, r, hr, hb⟩
+  · exact h
+  · have := hsz r hr; omega
+
+/-- the `struct.error` case is real: a NULL record with 64 KiB of data (or more) cannot be encoded —
+    `struct.pack("!H", aft - prefix)` in `RRHeader.encode` -/
+theorem oversize_rdata_struct_error (b : Bytes) (hb : 65536 ≤ b.length) (off : Nat) (d : Dict) :
+    encodeRR ⟨[], 10, 1, 0, some ⟨false, [.bytes b]⟩⟩ off d = .error .struct := by
+  have h1 : encodeName [] off true d = .ok ([0], d) := by simp [encodeName, encodeNameAux]
+  have h2 : packBE 2 b.length = .error .struct := by simp [packBE, show ¬ b.length < 256 ^ 2 by omega]
+  simp [encodeRR, h1, packBE_ok (show 10 < 256 ^ 2 by decide), packBE_ok (show 1 < 256 ^ 2 by decide),
+    packBE_ok (show 0 < 256 ^ 4 by decide), payloadKinds, kindsOf, schema, encFields, encField, h2]
+
+/-- **C32 for `Message`, all clauses together, no hypothesis on the encoder's result.**  A well-formed
+    message none of whose RDATA can reach 64 KiB is encoded by `Message.toStr`; if it is within its
+    size limit (or has none) `Message.fromStr` returns it (`maxSize`, not a wire field, reads back
+    as 0); if it is over its limit (`maxSize ≥ 12`) exactly `maxSize` bytes are produced and they
+    decode to the message's header with TC set and a flat proper prefix of its questions and records. -/
+theorem message_round_trip (m : Msg) (hwf : wfMsg m = true)
+    (hsz : ∀ r ∈ m.answers ++ m.authority ++ m.additional, rdataMax r < 65536) :
+    ∃ body bs, encodeBody m = .ok body ∧ encodeMsg m = .ok bs ∧
+      ((m.maxSize = 0 ∨ body.length + headerSize ≤ m.maxSize) → decodeMsg bs = .ok { m with maxSize := 0 }) ∧
+      (headerSize ≤ m.maxSize → body.length + headerSize > m.maxSize →
+        bs.length = m.maxSize ∧ (bs.getD 2 0).toNat / 2 % 2 = 1 ∧
+        ∃ kq ka kn kd, FlatCut m kq ka kn kd ∧ decodeMsg bs = .ok (truncatedTo m kq ka kn kd)) := by
+  obtain ⟨body, bs, hb, he⟩ := encode_succeeds m hwf hsz
+  refine ⟨body, bs, hb, he, fun hfit => decode_encode_message m hwf body bs hb hfit he, fun h12 hover => ?_⟩
+  obtain ⟨h1, h2, _, h4⟩ := truncated_encoding_within_limit m hwf body bs hb h12 hover he
+  exact ⟨h1, h2, h4⟩
 
 /-- **Names** (re-stated from `C32/Name.lean`): a name of 1..63-byte labels written by `Name.encode`
     at any offset, with or without compression, with any sound dictionary, into any message, is
@@ -247,7 +525,9 @@ example : ∃ out, encodeMsg exMsg = .ok out ∧ out.contains 192 = true ∧
 
 set_option maxRecDepth 8000 in
 /-- … and those of the truncation theorem: the same message with `maxSize = 64` -/
-example : ∃ out, encodeMsg { exMsg with maxSize := 64 } = .ok out ∧ out.length = 64 ∧ (out.getD 2 0).toNat / 2 % 2 = 1 := by
+example : ∃ out, encodeMsg { exMsg with maxSize := 64 } = .ok out ∧ out.length = 64 ∧ (out.getD 2 0).toNat / 2 % 2 = 1 ∧
+    ∃ kq ka kn kd, FlatCut { exMsg with maxSize := 64 } kq ka kn kd ∧
+      decodeMsg out = .ok (truncatedTo { exMsg with maxSize := 64 } kq ka kn kd) := by
   have hw : wfMsg { exMsg with maxSize := 64 } = true := by decide
   cases hb : encodeBody { exMsg with maxSize := 64 } with
   | error e =>
@@ -259,8 +539,8 @@ example : ∃ out, encodeMsg { exMsg with maxSize := 64 } = .ok out ∧ out.leng
     rw [hb] at hlen
     have hover : body.length + headerSize > 64 := by simpa using hlen
     have he := encodeMsg_eq _ hw body hb
-    obtain ⟨h1, h2, _⟩ := truncated_encoding_within_limit_partial _ hw body _ hb (by decide) hover he
-    exact ⟨_, he, h1, h2⟩
+    obtain ⟨h1, h2, _, h4⟩ := truncated_encoding_within_limit _ hw body _ hb (by decide) hover he
+    exact ⟨_, he, h1, h2, h4⟩
 
 instance (ls : List Bytes) : Decidable (ProperLabels ls) := by unfold ProperLabels; exact inferInstance
 
@@ -268,6 +548,22 @@ instance (ls : List Bytes) : Decidable (ProperLabels ls) := by unfold ProperLabe
 example : encodeName (joinDots [bs "a", List.replicate 64 120, bs "com"]) 12 true [] = .error .value :=
   unrepresentable_name_is_refused _ (by decide) (List.replicate 64 120) (by decide) (by decide) 12 true []
     (fun _ _ h => by cases h)
+
+/-- … of the message-level refusal: a 64-byte label inside the RDATA of the second answer -/
+def exBad : Msg :=
+  { exMsg with answers := exMsg.answers ++
+      [⟨bs "example.com", 15, 1, 60, some ⟨false, [.nat 5, .bytes (bs "mx." ++ List.replicate 64 120 ++ bs ".example.com")]⟩⟩] }
+
+example : encodeMsg exBad = .error .value :=
+  unrepresentable_name_refused_valueError exBad (by decide) (by decide) (by decide)
+
+/-- … and of `message_round_trip` (hence of `encode_succeeds`) -/
+example : ∃ out, encodeMsg exMsg = .ok out ∧ decodeMsg out = .ok { exMsg with maxSize := 0 } := by
+  obtain ⟨body, out, _, he, hrt, _⟩ := message_round_trip exMsg (by decide) (by decide)
+  exact ⟨out, he, hrt (Or.inl rfl)⟩
+
+example : encodeRR ⟨[], 10, 1, 0, some ⟨false, [.bytes (List.replicate 65536 0)]⟩⟩ 12 [] = .error .struct :=
+  oversize_rdata_struct_error _ (Nat.le_of_eq List.length_replicate.symm) 12 []
 
 /-! ### `_EDNSMessage`: the size limit is not honoured (known finding `edns-maxsize-ignored`) -/
 
